@@ -688,8 +688,21 @@ pub fn replay(case: &serde_json::Value) -> Result<u64, String> {
     let st: State = serde_json::from_value(case["state"].clone()).map_err(|e| e.to_string())?;
     let op: Op = serde_json::from_value(case["op"].clone()).map_err(|e| e.to_string())?;
     let w = World::new();
-    let mut real = w.build(&st);
-    let mut m = st.clone();
+    // the recorded history (when present) is replayed on live contexts from the initial state,
+    // exactly as the explorer reached the state
+    let history: Option<Vec<Op>> = case.get("history").and_then(|h| serde_json::from_value(h.clone()).ok());
+    let init: State = vec![MC { sch: 0, vals: [None, None, None, None] }];
+    let (mut real, mut m) = match &history {
+        Some(h) => {
+            let mut real = w.build(&init);
+            let mut m = init.clone();
+            for past in h {
+                let _ = step(&w, &mut real, &mut m, past);
+            }
+            (real, m)
+        }
+        None => (w.build(&st), st.clone()),
+    };
     let r = guarded(|| {
         let mut problems = step(&w, &mut real, &mut m, &op);
         observe(&w, &real, &m, &mut problems);
